@@ -517,6 +517,9 @@ func (r *Region) TransferLeader(store uint64) error {
 	if p == nil {
 		return r.refused(refuse(RefTransferAbsent, "no peer on store %d", store))
 	}
+	if store == r.LeaderStore {
+		return nil // already the leader (whatever its role): nothing to do
+	}
 	switch p.Role {
 	case metapb.PeerRole_Learner:
 		return r.refused(refuse(RefTransferLearner, "peer %d on store %d is a learner", p.Id, store))
@@ -860,6 +863,9 @@ func (r *Region) applyChangeV2(changes []*pdpb.ChangePeer) error {
 	// validate on a copy, then commit (atomic)
 	c := r.Clone()
 	cv := r.ConfVer
+	if err := c.EnterJoint(promote, demote); err != nil {
+		return r.refused(err)
+	}
 	for _, a := range addsL {
 		if err := c.checkNewPeer(a.store, a.id); err != nil {
 			return r.refused(err)
@@ -875,13 +881,13 @@ func (r *Region) applyChangeV2(changes []*pdpb.ChangePeer) error {
 	for _, rm := range removes {
 		for i, q := range c.Peers {
 			if q.StoreId == rm.Store {
+				if q.Role != metapb.PeerRole_Learner {
+					return r.refused(refuse(RefRemoveVoterJoint, "cannot remove voter %d directly inside a joint change", q.Id))
+				}
 				c.Peers = append(c.Peers[:i:i], c.Peers[i+1:]...)
 				break
 			}
 		}
-	}
-	if err := c.EnterJoint(promote, demote); err != nil {
-		return r.refused(err)
 	}
 	// commit
 	r.Peers = c.Peers
